@@ -284,6 +284,34 @@ impl<'a> Exec<'a> {
                     ));
                 }
             }
+            // ... and on the sampling temperature that goes with a mask (C17: LlgMaskResult.temperature
+            // and llg_get_temperature against the Rust constraint)
+            let mut temps: Vec<(SlotId, (f32, f32))> = vec![];
+            for (g, o) in &outs {
+                if matches!(o, StepOut::Mask(_)) {
+                    if let Some(c) = self.ch(*g) {
+                        temps.push((*g, c.temperature()));
+                    }
+                }
+            }
+            for (g, (a, b)) in &temps {
+                if a.to_bits() != b.to_bits() && self.fault_free() {
+                    return Err(self.viol(
+                        "mirror_equivalence",
+                        "temperature_inconsistent",
+                        format!("h{g}: temperature of the constraint {a} differs from the mask result's {b}"),
+                    ));
+                }
+            }
+            for j in 1..temps.len() {
+                if temps[0].1 .0.to_bits() != temps[j].1 .0.to_bits() && self.fault_free() {
+                    return Err(self.viol(
+                        "mirror_equivalence",
+                        "mirror_differs:temperature",
+                        format!("h{} temperature {} vs h{} temperature {}", temps[0].0, temps[0].1 .0, temps[j].0, temps[j].1 .0),
+                    ));
+                }
+            }
         }
         if !do_commit {
             return Ok(());
@@ -435,6 +463,28 @@ impl<'a> Exec<'a> {
                         s.ops_since_fault = 1;
                         s.c_pending_mask = None;
                         s.rejected_commit = true;
+                        // F8 needs a rejected token whose first byte(s) the grammar accepts here
+                        let hist = s.hist.clone();
+                        let partial = match tok {
+                            Some(t) if (t as usize) < nv && !self.ctx.is_special(t) => {
+                                let first = self.ctx.tok_bytes(t).first().copied();
+                                let (gp, _) = self.prompt_grm_bytes.get(&g).cloned().unwrap_or((vec![], 0));
+                                match (self.hist_bytes(&hist), first) {
+                                    (Some(hb), Some(fb)) => {
+                                        let mut bt: Vec<u32> = gp.iter().chain(hb.iter()).map(|b| *b as u32).collect();
+                                        bt.push(fb as u32);
+                                        let mut b = self.byte_matcher();
+                                        b.validate_tokens(&bt).unwrap_or(0) == bt.len()
+                                    }
+                                    (None, _) => true,
+                                    _ => false,
+                                }
+                            }
+                            _ => false,
+                        };
+                        if partial {
+                            self.slots.get_mut(&g).unwrap().rejected_partial = true;
+                        }
                     }
                 }
             }
@@ -469,8 +519,10 @@ impl<'a> Exec<'a> {
             _ => return self.skip_c("no_slot"),
         };
         // known finding F8: a Rust Constraint that rejected a token may have consumed part of its
-        // bytes and stays "usable"; violations after that point carry their own signature
-        let sfx = if rejected { ":after_rejected_commit" } else { "" };
+        // bytes and stays "usable"; violations after that point carry their own signature (only
+        // when the rejected token did start with bytes the grammar accepted)
+        let partial = self.slots.get(&h).map(|s| s.rejected_partial).unwrap_or(false);
+        let sfx = if rejected && partial { ":after_rejected_commit" } else { "" };
         if failed {
             return self.skip_c("failed");
         }
@@ -1235,6 +1287,7 @@ impl<'a> Exec<'a> {
             c_ff: false,
             ops_since_fault: 0,
             rejected_commit: false,
+            rejected_partial: false,
         };
         self.slots.insert(h, slot);
         self.ev(format!("stop_new h{h} c={via_c}"));
@@ -1276,6 +1329,7 @@ impl<'a> Exec<'a> {
             c_ff: false,
             ops_since_fault: 0,
             rejected_commit: false,
+            rejected_partial: false,
         };
         self.slots.insert(dst, slot);
         self.stats.probe("stop_controller_cloned");
@@ -1417,8 +1471,36 @@ impl<'a> Exec<'a> {
             return Ok(());
         }
         if !text_valid {
+            // Broken characters in the stream (byte-fallback tokens do this). What the returned
+            // chunks look like then depends on where the lossy decoding cuts, so the output is not
+            // judged; but stop strings are valid UTF-8, matching restarts at the byte that broke
+            // the character, and so an occurrence is found exactly when the bytes contain one.
             self.stats.probe("stop_text_invalid_utf8");
-            self.ev(format!("chk_stop h{h} invalid-utf8 skipped"));
+            match (&expected_end, stop_tok_hit) {
+                (Some((end, _)), _) if !stopped => {
+                    return Err(self.viol(
+                        "stop_controller",
+                        "stop_string_missed",
+                        format!("h{h}: a stop string ends at byte {end} of {:?} (text with a broken character) but the controller is not stopped", String::from_utf8_lossy(&text)),
+                    ));
+                }
+                (None, true) if !stopped => {
+                    return Err(self.viol(
+                        "stop_controller",
+                        "stop_token_missed",
+                        format!("h{h}: stop token committed but not stopped"),
+                    ));
+                }
+                (None, false) if stopped => {
+                    return Err(self.viol(
+                        "stop_controller",
+                        "stopped_without_stop",
+                        format!("h{h}: stopped but text {:?} has no stop token/string", String::from_utf8_lossy(&text)),
+                    ));
+                }
+                _ => {}
+            }
+            self.ev(format!("chk_stop h{h} invalid-utf8 stopped={stopped}"));
             return Ok(());
         }
         for c in &chunks {
@@ -1633,6 +1715,7 @@ impl<'a> Exec<'a> {
                     p,
                     n_vocab: nv,
                     ctok: ctok.clone(),
+                    last_mask_temp: 0.0,
                 };
                 let e = c.err();
                 if e.is_some() {
